@@ -543,6 +543,11 @@ def run(ctx):
         users = [f for f, b in ctx.cg.callers("meta_keyspace::encode_config_key")]
         ctx.floor("R-C16.8", "users of encode_config_key (writer and reader side)", users, 2)
 
+    # ---- cross-cutting disciplines (rules/discipline.py)
+    from .. import discipline as D
+    # an option row that cannot be read or written fails the call (never silently replaced by a default)
+    D.error_discipline(ctx, "R-C16.9", scope=lambda f: f.startswith(("keyspace::options::", "meta_keyspace::", "keyspace::config::", "<keyspace::config::")))
+
     # ---- borrowed obligations (mechanisms owned by other properties that this property's verdict also rests on)
     # an existing keyspace is never created a second time with other options
     ctx.borrow("C12", ["R-C12.7"], "R-C16.6")
